@@ -124,15 +124,15 @@ func (p Polygon) Points() func() Point {
 
 // Within calculates whether p is within poly.
 func (p Polygon) Within(poly Polygonal) WithinStatus {
-	if reflect.DeepEqual(p, poly) {
-		return OnEdge
-	}
 	for _, r := range p {
 		for _, pt := range r {
 			if pointInPolygonal(pt, poly) == Outside {
 				return Outside
 			}
 		}
+	}
+	if reflect.DeepEqual(p, poly) {
+		return OnEdge
 	}
 	return Inside
 }
